@@ -66,7 +66,7 @@ def generate(rng, tier):
             ops.append(_ptr(t + rng.choice([-0.6, -0.001, 0.0, 0.6]), browsers[0]["types"][0], name,
                             rng.choice([ttl, 4500])))
         insts.append((ty, name, ttl))
-        ops.append(_ptr(t, ty, name, ttl))
+        ops.append(_ptr(t, ty, name, ttl, rng))
         life = max(ttl, 1125)
         # follow-up behaviour
         k = rng.random()
@@ -75,10 +75,10 @@ def generate(rng, tier):
         elif k < 0.6:
             tr = t + life * rng.choice([0.3, 0.74, 0.75, 0.751, 0.8, 0.86, 0.95, 0.999])
             nm = name.upper() if rng.random() < 0.3 else name
-            ops.append(_ptr(tr, ty, nm, rng.choice([ttl, 1200, 4500])))
+            ops.append(_ptr(tr, ty, nm, rng.choice([ttl, 1200, 4500]), rng))
         elif k < 0.8:
             tg = t + life * rng.choice([0.1, 0.5, 0.76, 0.9])
-            ops.append(_ptr(tg, ty, name, 0))
+            ops.append(_ptr(tg, ty, name, 0, rng))
         else:
             # refresh shortly after (within / beyond the browser delay): keeps or moves the slot
             ops.append(_ptr(t + rng.choice([0.5, 0.999, 1.0, 5.0, 9.999, 10.001, 30.0, 61.0]), ty, name, ttl))
@@ -105,7 +105,10 @@ def _kept_slot_cause(hist, k, lo, delay, tq, first_deadline):
     return None
 
 
-def _ptr(t, ty, name, ttl):
+def _ptr(t, ty, name, ttl, rng=None):
+    if rng is not None and rng.random() < 0.12:
+        # the responder spells the type in its own letter case (DNS names compare case-insensitively)
+        ty = rng.choice([ty.upper(), ty.replace("_t", "_T").replace("_h", "_H").replace("_i", "_I")])
     return {"t": round(t, 6), "op": "send", "p": "P",
             "msg": {"qr": 1, "an": [wire.RR(ty, wire.T_PTR, ttl, name).to_json()]}}
 
